@@ -440,6 +440,8 @@ def _option_tokens_derivation(ctx, c, init, opt_f, tok_f):
         ok, det = takewhile_ok(expr)
         if ok is not None:
             return ok, det
+        if isinstance(expr, ast.Call) and isinstance(expr.func, ast.Name) and expr.func.id in ("list", "tuple") and len(expr.args) == 1 and depth < 3:
+            return judge(fn, expr.args[0], depth + 1)
         if isinstance(expr, ast.Call) and isinstance(expr.func, ast.Attribute) and isinstance(expr.func.value, ast.Name) and expr.func.value.id == "self" and depth < 2:
             h = c.methods.get(expr.func.attr) or ctx.p.lookup_method(c, expr.func.attr)
             if h is not None:
